@@ -91,6 +91,41 @@ CHECKS = {
              "groups are executed as subprocesses under all nine designator spellings and the program's sys.argv, exit "
              "status and output are compared with the spec and across modes.",
         note="-i / REPL start-up and hy2py/hyc command lines are not covered; -m needs the module on sys.path (cwd)."),
+    "C18": dict(
+        engine="reader", level="model_checking", design="5.4, 6/C18",
+        technique="TLC enumerates every short text of HyReader's alphabet with the spec's outcome; the real reader "
+                  "is run on each and on mutated programs validated by TLC; random token strings under a watchdog",
+        text="The reader spec (recursive descent, one operator per reader method) gives every text an outcome in "
+             "{models, LexException, PrematureEndOfInput}; TLC enumerates all texts <= 3 (thorough 4) characters over 30 "
+             "syntax characters plus all f-string field texts and the real reader must produce the same class (never "
+             "another exception, always terminating); longer mutated programs are validated through TLC's file mode.",
+        note="Numeric-looking identifiers are left to HyReaderIdent (status unk here)."),
+    "C19": dict(
+        engine="reader", level="model_checking", design="5.4, 6/C19",
+        technique="CutLaw is a TLC-checked invariant over every prefix of every enumerated text; the spec's cut "
+                  "classes are replayed on the real reader and the REPL prompt",
+        text="For every well-formed text TLC classifies every cut point (inside an unclosed construct / between top-level "
+             "forms / inside a token) and checks the law on the spec; the real reader must raise PrematureEndOfInput resp. "
+             "read for the first two classes; every prefix of generated programs is validated by TLC; REPL.runsource must "
+             "ask for more input on the premature-end prefixes.",
+        note="Cuts inside a bare token are unconstrained, as the property allows."),
+    "C20": dict(
+        engine="reader", level="model_checking", design="5.4, 6/C20",
+        technique="SepLaw / ConcatLaw are TLC-checked invariants of the reader spec; gaps exported by TLC are used to "
+                  "insert separators into texts read by the real reader; sugar/long-form pairs validated by TLC",
+        text="TLC checks on every enumerated text that inserting whitespace, comments or #_ discards at any between-forms "
+             "gap, and concatenating with whole-form texts, leaves the model lists unchanged; the same insertions (8 "
+             "separators) are applied to the real reader at the gaps the spec exports; sugar and long forms built from one "
+             "tree must read equal on the reader and are validated against the spec.",
+        note="Junctions inside a token or an unterminated comment are excluded, as in DESIGN 6/C20."),
+    "C21": dict(
+        engine="reader", level="model_checking", design="5.4, 6/C21",
+        technique="position invariants and RegionReadsBack checked by TLC on the spec; positions reported by the real "
+                  "reader compared with the spec (enum + file mode); region re-read on the real reader",
+        text="Every model of every enumerated text carries the positions the spec computes (compared exactly); children "
+             "lie inside parents in source order; slicing the source by a model's region and re-reading gives an equal "
+             "model (checked by TLC on the spec and by re-reading on the real reader, also for generated multi-line programs).",
+        note="f-string components share their field's start position; only the embedded forms are position-checked."),
     "C32": dict(
         engine="mangle", level="model_checking", design="5.6, 6/C32",
         technique="TLC checks the mangling laws on all abstract class strings of HyMangle; the exported table is "
